@@ -16,6 +16,23 @@ Theorem C11_lock_discipline : forallb ok_skeleton hub_all = true.
 Proof. exact hub_lock_discipline. Qed.
 Print Assumptions C11_lock_discipline.
 
+(* the model's atomicity granularity, checked on the same generated skeletons:
+   Add / List / SendTo / Broadcast / BroadcastExcept are one critical section
+   each (one model step), CloseSession one plus lock-free closes, remove two with
+   the lock-free close in between; all of Add's map writes and its close of a
+   replaced connection happen inside its single write-locked section *)
+Theorem C11_critical_sections :
+  acquisitions hub_Add = 1 /\ acquisitions hub_Add_lit1 = 0 /\ acquisitions hub_Add_lit2 = 2 /\
+  acquisitions hub_CloseSession = 1 /\ acquisitions hub_List = 1 /\
+  acquisitions hub_Broadcast = 1 /\ acquisitions hub_BroadcastExcept = 1 /\ acquisitions hub_SendTo = 1.
+Proof. exact hub_critical_sections. Qed.
+Print Assumptions C11_critical_sections.
+
+Theorem C11_add_atomic :
+  forallb (fun e => match e with (_, LWrite) => true | _ => false end) hub_Add = true.
+Proof. exact hub_add_all_locked. Qed.
+Print Assumptions C11_add_atomic.
+
 (* whatever is in an attached session map is open and belongs to that session *)
 Theorem C11_attached_open : forall cap ops x g m,
   let h := fst (run (init cap) ops) in
